@@ -43,6 +43,8 @@ type RefResult struct {
 	SubIn map[string][]V
 	// Contrib: top-level nodes whose output data flowed (transitively) into the value delivered to END
 	Contrib map[string]bool
+	// BranchFailed: id of the first branch whose condition was made to fail ("" if none)
+	BranchFailed string
 	// Incomplete: some (possibly nested) graph stopped at a failing merge (collision / missing key), so
 	// Execs is not the full execution set: execution comparisons are skipped
 	Incomplete bool
@@ -76,6 +78,10 @@ func EvalGraph(spec *GraphSpec, in V, env *RefEnv) *RefResult {
 	} else {
 		evalAllPred(spec, in, env, res, true)
 	}
+	if res.BranchFailed != "" {
+		res.Err, res.ErrNode = "nodefail", res.BranchFailed
+		res.Incomplete = true
+	}
 	if res.Err == "collision" || res.Err == "keymissing" {
 		res.Incomplete = true
 	}
@@ -83,6 +89,13 @@ func EvalGraph(spec *GraphSpec, in V, env *RefEnv) *RefResult {
 }
 
 func choose(bs *BranchSpec, in any, env *RefEnv, res *RefResult) []string {
+	if env.Faults[bs.ID] != NoFault {
+		// the condition itself fails: the run fails (recorded, the caller goes on with "nothing chosen")
+		if res.BranchFailed == "" {
+			res.BranchFailed = bs.ID
+		}
+		return nil
+	}
 	if forced, ok := env.Choices[bs.ID]; ok {
 		res.Branch[bs.ID] = forced
 		return forced
@@ -123,6 +136,9 @@ func evalNode(g *GraphSpec, n *NodeSpec, in V, env *RefEnv, res *RefResult) (V, 
 		res.Orphans = append(res.Orphans, sub.Orphans...)
 		if sub.Incomplete || sub.Err == "collision" || sub.Err == "keymissing" {
 			res.Incomplete = true
+		}
+		if sub.BranchFailed != "" && res.BranchFailed == "" {
+			res.BranchFailed = sub.BranchFailed
 		}
 		if sub.Err != "" {
 			return nil, sub.Err, sub.ErrNode
